@@ -492,6 +492,9 @@ package rewriter
 //@   ensures[bind] fresh(f.Body) && isa(f.Body.List[0], AssignStmt)
 //@        && (let kv := as(f.Body.List[0], AssignStmt) in kv.Tok == fr.Tok && len(kv.Lhs) == 1 && kv.Lhs[0] == fr.Key
 //@             && len(kv.Rhs) == 1 && IsCallOfMethod(kv.Rhs[0], as(f.Init, AssignStmt).Lhs[0], cstCurrent))
+//@   -- D23: the loop variable of `for v := range it` lives in the scope of the for statement, so the body may declare v again;
+//@   -- that needs the body to stay a block of its own (as rewriteRangeToForIter does for := ranges inside generators)
+//@   ensures[define-scope] fr.Tok == token.DEFINE ==> len(f.Body.List) == 2 && isa(f.Body.List[1], BlockStmt) && as(f.Body.List[1], BlockStmt) == fr.Body
 //@   ensures[body-order] len(f.Body.List) == len(fr.Body.List) + 1
 //@        && (forall j: Int :: 0 <= j && j < len(fr.Body.List) ==> f.Body.List[j + 1] == fr.Body.List[j])
 
